@@ -48,6 +48,9 @@ def showAn : An → String
   | .condition => "C"
   | .simulate => "S"
   | .command => "M"
+  | .indentation => "I"
+  | .threshold => "T"
+  | .macro => "X"
 
 def showItem (i : Item) : String :=
   s!"{showAn i.an}:{i.id}:{i.line}:{if i.isError then "E" else "-"}:{if i.hasFix then "fix" else "-"}"
@@ -120,6 +123,11 @@ def step (s : St) (line : String) : St × String :=
   | ["match", r, a] => pair s r a fun s p => { s with matchT := p :: s.matchT }
   | ["custom", n, a] => pair s n a fun s p => { s with customT := p :: s.customT }
   | ["sim", q, c] => pair s q c fun s p => { s with sims := p :: s.sims }
+  | ["baseprobe", a] =>
+    -- `re.search(<published Base pattern>, a)` as the model computes it
+    match decodeStr a with
+    | some a => (s, if acceptBase s.baseUnits a then "T" else "F")
+    | none => (s, "bad-op")
   | ["int", a] =>
     match decodeStr a with
     | some a => ({ s with intT := a :: s.intT }, "ok")
@@ -152,7 +160,8 @@ def step (s : St) (line : String) : St × String :=
         s.examples.all (fun n => s.keywords.contains n)
       let specRx := s.specs.map (·.2)
       let anchored := s.searchT.all fun (r, a) => !specRx.contains r || s.matchT.contains (r, a)
-      let baseOk := s.searchT.all fun (r, a) => r != baseRegex s.baseUnits || s.baseUnits.contains a
+      let baseOk := (s.searchT.all fun (r, a) => r != baseRegex s.baseUnits || acceptBase s.baseUnits a) &&
+        !s.baseUnits.isEmpty && s.baseUnits.all (fun u => Analyzer.strip u == u && !u.isEmpty)
       let intOk := s.searchT.all fun (r, a) => s.specs.lookup "Run counter" != some r || s.intT.contains a
       (s, if namesOk && anchored && baseOk && intOk then "ok" else
         s!"bad:names={namesOk},anchored={anchored},base={baseOk},int={intOk}")
